@@ -453,6 +453,34 @@ pub fn scenarios(tier: &str) -> Vec<PyScenario> {
                                     out.push(x);
                                 }
                             }
+                            // a start the checker accepts but the space bounds reject / a start quaternion that is
+                            // unit only up to rounding: the path begins with exactly what the user passed in
+                            if wi == 0 {
+                                let odd: Option<V> = match (&v.spec, &v.start) {
+                                    (Spec::Rv { .. }, V::Rv(x)) => Some(V::Rv(vec![-0.75, x[1]])),
+                                    (Spec::So2 { bounds: Some((lo, _)), .. }, V::So2(_)) => Some(V::So2(lo - 0.25)),
+                                    (Spec::So3 { .. }, V::So3(_)) => Some(V::So3(quat([1.0, 2.0, 3.0], 77.0))),
+                                    (Spec::Se2 { .. }, V::Cmp(c)) | (Spec::Cmp { .. }, V::Cmp(c)) => {
+                                        let mut c = c.clone();
+                                        if let V::Rv(x) = &mut c[0] {
+                                            x[0] = -0.75;
+                                        }
+                                        Some(V::Cmp(c))
+                                    }
+                                    (Spec::Se3 { .. }, V::Cmp(c)) => {
+                                        let mut c = c.clone();
+                                        c[1] = V::So3(quat([1.0, 2.0, 3.0], 77.0));
+                                        Some(V::Cmp(c))
+                                    }
+                                    _ => None,
+                                };
+                                if let Some(st) = odd {
+                                    let mut x = base.clone();
+                                    x.id = format!("{}/odd-start", base.id);
+                                    x.start = st;
+                                    out.push(x);
+                                }
+                            }
                             // the robot already stands in the goal: the goal sampler returns the start itself
                             if wi == 0 {
                                 for (dn, b) in [("at-goal-bias1", 1.0), ("at-goal-bias0.5", 0.5)] {
@@ -855,7 +883,7 @@ pub fn run_c19(tier: &'static str) -> i32 {
 pub fn run_c20(tier: &'static str) -> i32 {
     let t0 = Instant::now();
     let mut rep = Report::new();
-    let scs: Vec<PyScenario> = scenarios(tier).into_iter().filter(|s| s.id.contains("/w1/") && s.id.contains("/p0/") && (!s.id.contains("/h-") || s.id.ends_with("/h-resetup")) && !s.id.contains("/at-goal") && !s.id.contains("/frac") && !s.id.starts_with("SO2b")).collect();
+    let scs: Vec<PyScenario> = scenarios(tier).into_iter().filter(|s| s.id.contains("/w1/") && s.id.contains("/p0/") && (!s.id.contains("/h-") || s.id.ends_with("/h-resetup") || s.id.ends_with("/h-solve-solve")) && !s.id.contains("/at-goal") && !s.id.contains("/frac") && !s.id.contains("/odd-start") && !s.id.starts_with("SO2b")).collect();
     rep.count("scenarios", scs.len() as u64);
     let input = json!({"tier": tier, "scenarios": scs.iter().map(|s| s.json()).collect::<Vec<_>>(), "k_max": if tier == "quick" { 8 } else { 12 }});
     if let Some(r) = run_driver("c20", &input, &mut rep) {
